@@ -525,7 +525,8 @@ impl Model {
                             let lost = pre_f
                                 .iter()
                                 .filter(|p| !(llgr_started && p.no_llgr))
-                                .filter(|p| !post_f.iter().any(|q| q.pfx == p.pfx && q.tag == p.tag))
+                                // the max-prefix drop itself announces prefixes (they may replace kept ones)
+                                .filter(|p| !post_f.iter().any(|q| q.pfx == p.pfx && (q.tag == p.tag || *how == DropHow::MaxPrefix)))
                                 .count();
                             if lost > 0 {
                                 skip_i1 |= 1 << f;
@@ -1360,7 +1361,7 @@ impl<'a> L2World<'a> {
 
     async fn connect(&mut self, spec: &CapSpec) -> Result<L2Live, HErr> {
         let la = self.listener.local_addr().map_err(|e| HErr::Io(e.to_string()))?;
-        let client = TcpStream::connect(la).await.map_err(|e| HErr::Io(format!("connect: {}", e)))?;
+        let client = crate::verif_hooks::connect_retry(la).await.map_err(|e| HErr::Io(format!("connect: {}", e)))?;
         let (server, _) = self.listener.accept().await.map_err(|e| HErr::Io(format!("accept: {}", e)))?;
         // close with RST: no TIME_WAIT sockets pile up over thousands of sessions
         #[allow(deprecated)]
@@ -2201,7 +2202,7 @@ fn run() {
     let mut rep = Report::new("C10", &params);
     let rt = tokio::runtime::Builder::new_current_thread().enable_all().build().expect("runtime");
     let part = params.get("part").unwrap_or("all").to_string();
-    let listener = match rt.block_on(TcpListener::bind("127.0.0.1:0")) {
+    let listener = match rt.block_on(crate::verif_hooks::bind_retry("127.0.0.1:0".parse().unwrap())) {
         Ok(l) => Some(l),
         Err(e) => {
             rep.inconclusive(&format!("cannot bind a loopback listener: {}", e));
